@@ -1224,7 +1224,10 @@ impl<'a> BenchContext<'a> {
                     sum = sum.saturating_add(sample_count);
                 }
 
-                (sum / median_samples.len() as u128) as MaxCountUInt
+                // No samples are recorded when `sample_count`, `sample_size`,
+                // or `max_time` is 0.
+                sum.checked_div(median_samples.len() as u128)
+                    .unwrap_or_default() as MaxCountUInt
             };
 
             Some(StatsSet {
@@ -1268,7 +1271,10 @@ impl<'a> BenchContext<'a> {
             alloc_info.tallies.add_to_total(&mut alloc_total_tallies);
         }
 
-        let sample_size = f64::from(sample_size);
+        // Without samples every numerator below is 0; divide by 1 instead of 0
+        // so that the results are 0 rather than NaN.
+        let sample_size = f64::from(sample_size.max(1));
+        let total_count_f64 = total_count.max(1) as f64;
         Stats {
             sample_count: sample_count as u32,
             iter_count: total_count,
@@ -1341,8 +1347,8 @@ impl<'a> BenchContext<'a> {
                     }
                 },
                 mean: AllocTally {
-                    count: alloc_total_max_count as f64 / total_count as f64,
-                    size: alloc_total_max_size as f64 / total_count as f64,
+                    count: alloc_total_max_count as f64 / total_count_f64,
+                    size: alloc_total_max_size as f64 / total_count_f64,
                 },
             }
             .transpose(),
@@ -1399,8 +1405,8 @@ impl<'a> BenchContext<'a> {
                         mean: {
                             let tally = alloc_total_tallies.get(op);
                             AllocTally {
-                                count: tally.count as f64 / total_count as f64,
-                                size: tally.size as f64 / total_count as f64,
+                                count: tally.count as f64 / total_count_f64,
+                                size: tally.size as f64 / total_count_f64,
                             }
                         },
                     })
